@@ -69,3 +69,21 @@ Theorem c33_yield_is_a_run : forall s,
              fold_left code_step (drain_actions s) s = s' /\ quiescent s' = true.
 Proof. exact drain_fold. Qed.
 Print Assumptions c33_yield_is_a_run.
+
+(* fault injection: if di.AddReference(nil, false) returns nil (against its
+   contract) the safety half still holds for every action list: never more than
+   one reference held, none without links or after disposal; only "held while
+   links exist" is lost until the next link is added (Example below) *)
+Theorem c33_safe_with_nil_references : forall acts s,
+  forallb safe_action acts = true -> run init acts = Some s ->
+  live s = (b2n (rigid s) + releasing s)%nat
+  /\ (rigid s = true -> links s <> [] /\ disposed s = false)
+  /\ (links s = [] \/ disposed s = true -> rigid s = false /\ live s = releasing s)
+  /\ (quiescent s = true -> (live s <= 1)%nat).
+Proof. exact safe_with_nil_references. Qed.
+Print Assumptions c33_safe_with_nil_references.
+
+Example c33_nil_reference_not_retried :
+  exists s, run init [SetNil 1; Added 1; RunAcquire]%nat = Some s /\ quiescent s = true /\
+            links s <> [] /\ disposed s = false /\ live s = 0%nat.
+Proof. exact nil_reference_not_retried. Qed.
